@@ -196,6 +196,7 @@ def run_C15(ctx, R):
     _scoped(ctx, R, utilsx.esc1, C15_ENTRIES, 1)
     _per_config(ctx, R, utilsx.esc3)
     _per_config(ctx, R, utilsx.idx1)
+    _per_config(ctx, R, utilsx.fnd1)
     _per_config(ctx, R, _inl(utilsx.ptr1))
 
 
